@@ -15,6 +15,7 @@ static __thread int nheld;
 static __thread vh_rng trng;
 static __thread int trng_init;
 static __thread void *last_taken;
+int lm_fail_trylock; long lm_trylock_failed;
 long lm_nlocks_taken;
 int  lm_delay_permille;
 static char violbuf[512];
@@ -101,6 +102,8 @@ static int lm_lock(unsigned mode, void *p)
 	}
 	maybe_delay();
 	if (mode & EVTHREAD_TRY) {
+		/* injected contention: a try-lock of a lock this thread does not hold fails as if another thread owned it */
+		if (lm_fail_trylock > 0 && i == nheld) { lm_fail_trylock--; __atomic_add_fetch(&lm_trylock_failed, 1, __ATOMIC_RELAXED); return 16 /* EBUSY */; }
 		r = pthread_mutex_trylock(&l->m);
 		if (r) return r;
 	} else {
